@@ -282,11 +282,44 @@ def main():
     ap.add_argument("--seed", type=int, default=1)
     ap.add_argument("--jobs", type=int, default=16)
     ap.add_argument("--tests", action="store_true", help="phase 2: run the pinned suite on the silent mutants of --out")
+    ap.add_argument("--cross", action="store_true", help="run the checks of the other properties anchored in the same file on the silent mutants")
     ap.add_argument("--recheck", action="store_true", help="re-run the check on the silent / gave-up mutants of --out")
     ap.add_argument("--out", required=True)
     args = ap.parse_args()
     os.makedirs(args.out, exist_ok=True)
     resfile = os.path.join(args.out, "phase1.json")
+    if args.cross:
+        # a mutant in a function several properties are anchored in: is it reported by *any* of their checks?
+        prev = json.load(open(resfile))
+        rc_file = os.path.join(args.out, "recheck.json")
+        rc = json.load(open(rc_file)) if os.path.exists(rc_file) else {}
+        props = [json.loads(l) for l in open(os.path.join(VERIF, "properties.jsonl"))]
+        by_file = {}
+        for p_ in props:
+            for f_ in p_["anchors"].get("files", []):
+                by_file.setdefault(f_, []).append(p_["id"])
+        sel = [r for r in prev if rc.get(r["id"], r)["outcome"] == "silent" and (not args.props or r["prop"] in args.props)]
+        seen = {}
+        jobs = []
+        for r in sel:
+            key = (r["file"], r["_a"], r["_b"], r["new"])
+            if key in seen:
+                continue
+            seen[key] = r
+            for q in by_file.get(r["file"], []):
+                if q != r["prop"]:
+                    jobs.append((q, r["file"], r["kind"], r["line"], r["_a"], r["_b"], r["new"],
+                                 open(os.path.join(REPO, r["file"]), "rb").read(), r["func"]))
+        with ThreadPoolExecutor(args.jobs) as ex:
+            out = list(ex.map(lambda j: one(j, False), jobs))
+        cross = {}
+        for j, o in zip(jobs, out):
+            key = "%s|%d|%d|%s" % (j[1], j[4], j[5], j[6])
+            cross.setdefault(key, {})[j[0]] = o["outcome"]
+        json.dump(cross, open(os.path.join(args.out, "cross.json"), "w"), indent=1)
+        n_rep = sum(1 for v in cross.values() if "reported" in v.values())
+        print("distinct silent mutants: %d; reported by the check of another property: %d" % (len(seen), n_rep))
+        return 0
     if args.recheck:
         prev = json.load(open(resfile))
         sel = [r for r in prev if r["outcome"] in ("silent", "gave-up") and (not args.props or r["prop"] in args.props)]
